@@ -671,7 +671,21 @@ func runC10(c *Ctx) {
 	errOut := zsim.NewSimSink(r, "errout", 1, 3)
 	r.Label(unsafe.Pointer(errOut), "errout")
 	tee := zapcore.NewTee(cores...)
-	lg := zap.New(tee, zap.ErrorOutput(zapcore.Lock(errOut)))
+	// annotation options change the path an entry takes through Logger.check
+	// (caller lookup, also one that fails because the skip reaches past the
+	// stack; stack capture); failures are reported all the same
+	annot := g.Weighted(5, 1, 1, 1)
+	lopts := []zap.Option{zap.ErrorOutput(zapcore.Lock(errOut))}
+	switch annot {
+	case 1:
+		lopts = append(lopts, zap.AddCaller())
+	case 2:
+		lopts = append(lopts, zap.AddCaller(), zap.AddCallerSkip(1000))
+	case 3:
+		lopts = append(lopts, zap.AddStacktrace(zapcore.InfoLevel))
+	}
+	lg := zap.New(tee, lopts...)
+	c.MixState(uint64(annot) << 40)
 
 	nTasks := 1
 	if g.Chance(4) {
@@ -707,7 +721,7 @@ func runC10(c *Ctx) {
 		}
 		bd = append(bd, s)
 	}
-	c.Describe("branches=[%s] tasks=%d policy=%s", strings.Join(bd, " "), nTasks, r.Policy)
+	c.Describe("branches=[%s] tasks=%d annotation=%s policy=%s", strings.Join(bd, " "), nTasks, []string{"none", "caller", "caller-lookup-fails", "stacktrace"}[annot], r.Policy)
 	for _, e := range entries {
 		var fs []string
 		for _, fl := range e.fields {
